@@ -534,3 +534,62 @@ def rule_word_membership(ctx, typer, funcs, rule):
             else:
                 ctx.inst(rule, f, node, "membership in a character set")
     return n
+
+
+# ---------------------------------------------------------------------- identity-only lint in a property's own files
+_MIX = ("anytree/node/nodemixin.py", "anytree/node/lightnodemixin.py")
+_ITER = tuple("anytree/iterators/%s.py" % n for n in ("abstractiter", "levelordergroupiter", "levelorderiter", "postorderiter",
+                                                       "preorderiter", "zigzaggroupiter"))
+IDENTITY_SCOPE = {
+    # property: (files, which functions of them: "structural" / "navigation" / None = all)
+    "C01": (_MIX + ("anytree/node/util.py",), "structural"),
+    "C02": (_MIX + ("anytree/node/util.py",), "structural"),
+    "C16": (_MIX + ("anytree/node/util.py",), "structural"),
+    "C04": (_MIX + ("anytree/util/__init__.py",), "navigation"),
+    "C05": (_ITER, None),
+    "C06": (_ITER, None),
+    "C07": (("anytree/resolver.py",), None),
+    "C09": (("anytree/render.py",), None),
+    "C10": (("anytree/exporter/dictexporter.py", "anytree/importer/dictimporter.py"), None),
+    "C11": (("anytree/exporter/jsonexporter.py", "anytree/importer/jsonimporter.py", "anytree/exporter/dictexporter.py",
+             "anytree/importer/dictimporter.py"), None),
+    "C14": (("anytree/search.py", "anytree/cachedsearch.py"), None),
+    "C15": (("anytree/walker.py",), None),
+    "C20": (("anytree/node/symlinknodemixin.py", "anytree/node/symlinknode.py"), None),
+}
+
+
+ID_SENTENCE = (" ID the identity-only lint of C17 (no ==, in/index/remove, truth value, hashing or container protocol on an "
+               "expression typed as a tree node) over the functions this property rests on.")
+
+
+def explanation_of(mod, prop):
+    return mod.EXPLANATION + (ID_SENTENCE if prop in IDENTITY_SCOPE else "")
+
+
+def rule_identity_scope(ctx):
+    """rule ID: the identity-only lint of C17 (T1-T5: no ==, in/index/remove, truth value, hashing or container protocol
+    on an expression typed as a tree node) over the functions this property is anchored in - each of the properties is
+    stated for every node class, including those that define __eq__/__bool__/__hash__/__len__, so a node compared by
+    value inside its own machinery breaks it for such classes"""
+    scope = IDENTITY_SCOPE.get(ctx.prop)
+    if scope is None:
+        return
+    from ..lint_identity import lint_program
+    from .. import tables as T
+    files, which = scope
+    typer = typer_for(ctx)
+    hits, stats = lint_program(ctx.p, typer, files=set(files))
+    ctx.instances["ID"] = stats["typed_node"] + stats["typed_node_seq"]
+    for h in hits:
+        f = h.func
+        top = f
+        while getattr(top, "outer", None) is not None:
+            top = top.outer
+        if which is not None and top.cls is not None and top.cls.name in T.MIXINS:
+            nav = top.srcname in T.READONLY_MEMBERS and top.kind not in ("setter", "deleter")
+            if (which == "navigation") != nav:
+                continue
+        elif which == "navigation" and top.module.relpath in _MIX:
+            continue
+        ctx.viol("ID", f, h.node, "identity-only rule %s in the code this property rests on: %s" % (h.rule, h.why))
